@@ -209,9 +209,6 @@ ImplRooted(parent, p) ==
 
 Top(st) == st.stack[Len(st.stack)]
 Paths(st) == {st.stack[j].f : j \in 1..Len(st.stack)}
-Running(st) == st.out = "run" /\ Len(st.stack) > 0
-AtEnd(st) == Running(st) /\ Top(st).i > Len(RefIdx(st.g, Top(st).f))
-HasCur(st) == Running(st) /\ Top(st).i <= Len(RefIdx(st.g, Top(st).f))
 Cur(st) == st.g.refs[RefIdx(st.g, Top(st).f)[Top(st).i]]
 CurOf(st, fr) == st.g.refs[RefIdx(st.g, fr.f)[fr.i]]
 Name(st) == ImplRooted(Top(st).f, Cur(st).p)
@@ -222,64 +219,56 @@ Fail(st, o) == [st EXCEPT !.out = o]
 Logged(st, n, ok) == [st EXCEPT !.opens = Append(@, [n |-> n, ok |-> ok])]
 Tolerated(k) == k \in {"import", "renderd"}          \* err != nil && !errors.Is(err, os.ErrNotExist) / special
 Swallow(st) == Advance(IF Cur(st).k = "import" THEN [st EXCEPT !.pend = TRUE] ELSE st)
-Cached(st) == {t \in st.trees : t.n = Name(st)}
 Conflict(tk, nk) ==   \* the switch on parsed.parent.node in parseNodeFile
   \/ tk = "extends" /\ nk \in {"import", "render", "renderd"}
   \/ tk = "import" /\ nk \in {"render", "renderd"}
   \/ tk \in {"render", "renderd"} /\ nk = "import"
 
-\* ---- ParseTemplate: readFileAndFormat(entry), parseSource
-G_StartMissing(st) == st.out = "init" /\ st.g.entry \notin st.g.files
-E_StartMissing(st) == Fail(Logged(st, st.g.entry, FALSE), "notexist")
-G_StartSyntax(st) == st.out = "init" /\ st.g.entry \in st.g.files /\ ~ParseOK(st.g, st.g.entry)
-E_StartSyntax(st) == Fail(Logged(st, st.g.entry, TRUE), "other")
-G_Start(st) == st.out = "init" /\ st.g.entry \in st.g.files /\ ParseOK(st.g, st.g.entry)
-E_Start(st) == [Logged(st, st.g.entry, TRUE) EXCEPT !.out = "run", !.stack = <<[f |-> st.g.entry, i |-> 1]>>]
-\* ---- expand: loop over the unexpanded nodes finished -> parseSource returns
-G_ReturnTop(st) == AtEnd(st) /\ Len(st.stack) = 1                 \* back in ParseTemplate; then typecheck
-E_ReturnTop(st) == [st EXCEPT !.stack = <<>>, !.out = IF st.pend THEN "notexist" ELSE "ok"]
-G_ReturnChild(st) == AtEnd(st) /\ Len(st.stack) > 1               \* back in parseNodeFile: pp.trees[name] = parsed
-E_ReturnChild(st) == LET caller == st.stack[Len(st.stack) - 1] IN
-  Advance([st EXCEPT !.stack = ButLast(st.stack), !.trees = @ \cup {[n |-> Top(st).f, k |-> CurOf(st, caller).k]}])
-\* ---- expand: one node
-G_ExtendsForbidden(st) == HasCur(st) /\ Cur(st).k = "extends" /\ ~st.canExtend
-E_ExtendsForbidden(st) == Fail(st, "other")
-Go(st) == HasCur(st) /\ ~(Cur(st).k = "extends" /\ ~st.canExtend)
-\* rooted() returned os.ErrNotExist
-G_EscapeFail(st) == Go(st) /\ Name(st) = ESC /\ ~Tolerated(Cur(st).k)
-E_EscapeFail(st) == Fail(NoExt(st), "notexist")
-G_EscapeTolerated(st) == Go(st) /\ Name(st) = ESC /\ Tolerated(Cur(st).k)
-E_EscapeTolerated(st) == Swallow(NoExt(st))
-\* slices.Contains(pp.paths, name)
-G_Cycle(st) == Go(st) /\ Name(st) # ESC /\ Name(st) \in Paths(st)
-E_Cycle(st) == Fail(NoExt(st), "cycle")
-Fresh(st) == Go(st) /\ Name(st) # ESC /\ Name(st) \notin Paths(st)
-\* pp.trees[name] exists
-G_CacheConflict(st) == Fresh(st) /\ \E t \in Cached(st) : Conflict(t.k, Cur(st).k)
-E_CacheConflict(st) == Fail(NoExt(st), "other")
-G_CacheReuse(st) == Fresh(st) /\ Cached(st) # {} /\ \A t \in Cached(st) : ~Conflict(t.k, Cur(st).k)
-E_CacheReuse(st) == Advance(NoExt(st))
-\* readFileAndFormat(pp.fsys, name)
-ToRead(st) == Fresh(st) /\ Cached(st) = {}
-G_ReadMissingFail(st) == ToRead(st) /\ Name(st) \notin st.g.files /\ ~Tolerated(Cur(st).k)
-E_ReadMissingFail(st) == Fail(Logged(NoExt(st), Name(st), FALSE), "notexist")
-G_ReadMissingTolerated(st) == ToRead(st) /\ Name(st) \notin st.g.files /\ Tolerated(Cur(st).k)
-E_ReadMissingTolerated(st) == Swallow(Logged(NoExt(st), Name(st), FALSE))
-G_ReadSyntax(st) == ToRead(st) /\ Name(st) \in st.g.files /\ ~ParseOK(st.g, Name(st))
-E_ReadSyntax(st) == Fail(Logged(NoExt(st), Name(st), TRUE), "other")
-G_ReadPush(st) == ToRead(st) /\ Name(st) \in st.g.files /\ ParseOK(st.g, Name(st))
-E_ReadPush(st) == LET s1 == Logged(NoExt(st), Name(st), TRUE) IN [s1 EXCEPT !.stack = Append(@, [f |-> Name(st), i |-> 1])]
-
-\* the same branches as a function (guards are mutually exclusive)
-StepFn(st) == Tick(
-  CASE G_StartMissing(st) -> E_StartMissing(st) [] G_StartSyntax(st) -> E_StartSyntax(st) [] G_Start(st) -> E_Start(st)
-    [] G_ReturnTop(st) -> E_ReturnTop(st) [] G_ReturnChild(st) -> E_ReturnChild(st)
-    [] G_ExtendsForbidden(st) -> E_ExtendsForbidden(st)
-    [] G_EscapeFail(st) -> E_EscapeFail(st) [] G_EscapeTolerated(st) -> E_EscapeTolerated(st)
-    [] G_Cycle(st) -> E_Cycle(st)
-    [] G_CacheConflict(st) -> E_CacheConflict(st) [] G_CacheReuse(st) -> E_CacheReuse(st)
-    [] G_ReadMissingFail(st) -> E_ReadMissingFail(st) [] G_ReadMissingTolerated(st) -> E_ReadMissingTolerated(st)
-    [] G_ReadSyntax(st) -> E_ReadSyntax(st) [] G_ReadPush(st) -> E_ReadPush(st))
+(* Br(st): which branch of the code is taken next - the if-chain of ParseTemplate /
+   expand / parseNodeFile, in the order of the source.  "Done" when there is an outcome.        *)
+Br(st) ==
+  IF st.out = "init" THEN                                          \* ParseTemplate: readFileAndFormat(entry), parseSource
+    (IF st.g.entry \notin st.g.files THEN "StartMissing"
+     ELSE IF ~ParseOK(st.g, st.g.entry) THEN "StartSyntax" ELSE "Start")
+  ELSE IF st.out # "run" THEN "Done"
+  ELSE LET top == Top(st)  L == RefIdx(st.g, top.f) IN
+    IF top.i > Len(L) THEN                                         \* expand: the loop over the unexpanded nodes is over
+      (IF Len(st.stack) = 1 THEN "ReturnTop"                       \*   back in ParseTemplate; then the type checker
+       ELSE "ReturnChild")                                         \*   back in parseNodeFile: pp.trees[name] = parsed
+    ELSE LET r == st.g.refs[L[top.i]] IN
+      IF r.k = "extends" /\ ~st.canExtend THEN "ExtendsForbidden"  \* imported and rendered files can not have extends
+      ELSE LET name == ImplRooted(top.f, r.p) IN
+        IF name = ESC THEN                                         \* rooted() returned os.ErrNotExist
+          (IF Tolerated(r.k) THEN "EscapeTolerated" ELSE "EscapeFail")
+        ELSE IF name \in Paths(st) THEN "Cycle"                    \* slices.Contains(pp.paths, name)
+        ELSE LET cached == {t \in st.trees : t.n = name} IN
+          IF cached # {} THEN                                      \* pp.trees[name] exists
+            (IF \E t \in cached : Conflict(t.k, r.k) THEN "CacheConflict" ELSE "CacheReuse")
+          ELSE IF name \notin st.g.files THEN                      \* readFileAndFormat fails with ErrNotExist
+            (IF Tolerated(r.k) THEN "ReadMissingTolerated" ELSE "ReadMissingFail")
+          ELSE IF ~ParseOK(st.g, name) THEN "ReadSyntax" ELSE "ReadPush"
+Labels == {"StartMissing", "StartSyntax", "Start", "ReturnTop", "ReturnChild", "ExtendsForbidden", "EscapeFail",
+           "EscapeTolerated", "Cycle", "CacheConflict", "CacheReuse", "ReadMissingFail", "ReadMissingTolerated",
+           "ReadSyntax", "ReadPush"}
+\* the effect of each branch
+Eff(b, st) ==
+  CASE b = "StartMissing" -> Fail(Logged(st, st.g.entry, FALSE), "notexist")
+    [] b = "StartSyntax" -> Fail(Logged(st, st.g.entry, TRUE), "other")
+    [] b = "Start" -> [Logged(st, st.g.entry, TRUE) EXCEPT !.out = "run", !.stack = <<[f |-> st.g.entry, i |-> 1]>>]
+    [] b = "ReturnTop" -> [st EXCEPT !.stack = <<>>, !.out = IF st.pend THEN "notexist" ELSE "ok"]
+    [] b = "ReturnChild" -> LET caller == st.stack[Len(st.stack) - 1] IN
+         Advance([st EXCEPT !.stack = ButLast(st.stack), !.trees = @ \cup {[n |-> Top(st).f, k |-> CurOf(st, caller).k]}])
+    [] b = "ExtendsForbidden" -> Fail(st, "other")
+    [] b = "EscapeFail" -> Fail(NoExt(st), "notexist")
+    [] b = "EscapeTolerated" -> Swallow(NoExt(st))
+    [] b = "Cycle" -> Fail(NoExt(st), "cycle")
+    [] b = "CacheConflict" -> Fail(NoExt(st), "other")
+    [] b = "CacheReuse" -> Advance(NoExt(st))
+    [] b = "ReadMissingFail" -> Fail(Logged(NoExt(st), Name(st), FALSE), "notexist")
+    [] b = "ReadMissingTolerated" -> Swallow(Logged(NoExt(st), Name(st), FALSE))
+    [] b = "ReadSyntax" -> Fail(Logged(NoExt(st), Name(st), TRUE), "other")
+    [] b = "ReadPush" -> LET s1 == Logged(NoExt(st), Name(st), TRUE) IN [s1 EXCEPT !.stack = Append(@, [f |-> Name(st), i |-> 1])]
+StepFn(st) == Tick(Eff(Br(st), st))
 Final(st) == st.out \notin {"init", "run"}
 RECURSIVE RunFn(_)
 RunFn(st) == IF Final(st) \/ st.steps > 200 THEN st ELSE RunFn(StepFn(st))
